@@ -150,7 +150,7 @@ INTERESTING = set(PAYLOAD) | set(WILL) | set(CONTAINER) | {w[0] for w in WILL.va
 
 
 class Event(object):
-    __slots__ = ("name", "sender", "data", "subject", "old", "new", "now", "has_payload", "obs", "members", "error", "raw")
+    __slots__ = ("name", "sender", "data", "subject", "old", "new", "now", "has_payload", "obs", "members", "error", "raw", "ident")
 
     def __repr__(self):
         return "<%s old=%r new=%r now=%r obs=%r>" % (self.name, self.old, self.new, self.now, self.obs)
@@ -181,6 +181,7 @@ class Recorder(object):
         ev.has_payload = False
         ev.error = None
         ev.raw = None
+        ev.ident = None
         try:
             if isinstance(d, dict):
                 if "object" in d:
@@ -205,6 +206,9 @@ class Recorder(object):
                 ev.now = copy.deepcopy(getter(o, d))
                 if name == "Font.GlyphOrderChanged":
                     ev.raw = copy.deepcopy(o.lib.get("public.glyphOrder"))     # the stored value the payload carries
+            if name in ("Layer.GlyphWillBeAdded", "Layer.GlyphAdded"):
+                g = o._glyphs.get(d["name"])          # peek: which glyph OBJECT is filed under the name (no lazy load)
+                ev.ident = None if g is None else id(g)
             if name in WILL:
                 ev.obs = copy.copy(WILL[name][2](o, d))
             elif name in CONTAINER:
